@@ -239,6 +239,16 @@ fn check_valid(out: &mut Out, a: &Address) {
         let mixed = String::from_utf8(mixed).unwrap();
         k_parse(out, &mixed);
         out.s("mixed_case_rejected", Address::from_str(&mixed).is_err(), || mixed.clone());
+        // the two case patterns that keep each PART in one case: HRP upper + data lower, HRP lower + data upper
+        if let Some(sep) = s.rfind('1') {
+            for m in [format!("{}{}", s[..sep].to_uppercase(), &s[sep..]), format!("{}{}", &s[..sep], s[sep..].to_uppercase())] {
+                if m != s && m != up {
+                    k_parse(out, &m);
+                    out.count("parse.mixed_case_across_separator");
+                    out.s("mixed_case_rejected", Address::from_str(&m).is_err() && Address::parse_with_params(&m, own).is_err(), || m.clone());
+                }
+            }
+        }
     } else {
         out.s("canonical_base58", Address::from_str(&s).map(|x| x.to_string()).ok() == Some(s.clone()), detail);
     }
